@@ -246,7 +246,8 @@ func (r *Runner) builtin(ctx context.Context, pos syntax.Pos, name string, args 
 				r.out(" ")
 			}
 			if doExpand {
-				arg, _, _ = expand.Format(r.ecfg, arg, nil)
+				// like printf %b, echo -e takes octal escapes of the form \0NNN
+				arg, _, _ = expand.Format(r.ecfg, "%b", []string{arg})
 			}
 			r.out(arg)
 		}
